@@ -287,6 +287,45 @@ pub fn step(s: &mut St, op: &Op, items: &[Item], verbose: bool) -> StepOut {
     out
 }
 
+/// X3: every string length around every prefix-integer boundary, for names and values, for symbols of each Huffman code
+/// length class, alone and followed by another field (a wrong length octet mis-frames what follows), twice in a row (the
+/// second time the string comes out of the dynamic table or not, depending on its size).
+fn length_sweep_cases(quick: bool) -> Vec<(bool, u8, usize)> {
+    // (sweep the name?, repeated symbol, repetitions)
+    let max = if quick { 600 } else { 9000 };
+    let mut v = vec![];
+    for &c in b"a-zA~\xff" {
+        for n in 0..=max {
+            v.push((false, c, n));
+        }
+    }
+    for &c in b"a-z_" {
+        for n in 0..=max.min(2000) {
+            v.push((true, c, n));
+        }
+    }
+    v
+}
+
+fn length_sweep_one(case: (bool, u8, usize), verbose: bool) -> Vec<(String, String, String)> {
+    let (in_name, c, n) = case;
+    let swept = if in_name {
+        Item { label: format!("name x{}*{}", c as char, n), name: [b"x".to_vec(), vec![c; n]].concat(), value: b"v".to_vec(), sensitive: false }
+    } else {
+        Item { label: format!("value {:#04x}*{}", c, n), name: b"x-s".to_vec(), value: vec![c; n], sensitive: false }
+    };
+    let items = vec![swept, item("after", "x-after", "tail")];
+    let mut vios = vec![];
+    let mut s = St::initial();
+    for list in [vec![0usize, 1], vec![0usize], vec![1usize, 0, 1]] {
+        let r = step(&mut s, &Op::Block(list), &items, verbose);
+        for (rule, sig, what) in r.vios {
+            vios.push((rule, format!("len:{}", sig.chars().filter(|c| !c.is_ascii_digit()).collect::<String>()), format!("[{} of {} x {:#04x}] {}", if in_name { "name" } else { "value" }, n, c, what.chars().take(400).collect::<String>())));
+        }
+    }
+    vios
+}
+
 fn lossy(f: &[Field]) -> Vec<String> {
     f.iter().map(|(n, v)| format!("{}={}", String::from_utf8_lossy(n), String::from_utf8_lossy(v))).collect()
 }
@@ -530,6 +569,19 @@ pub fn run(ctx: &Ctx) -> Outcome {
     out.harness("encoder-bfs", json!({"alphabet_items": items.iter().map(|i| i.label.clone()).collect::<Vec<_>>(), "ops": all_ops.len(), "max_block_len": max_block,
         "completed_depth": completed_depth, "closed": a.closed, "levels": per_depth, "updates": UPDATES, "states": a.states}));
     out.harness("continuation-splits", json!({"limits_tried": cases.load(Ordering::Relaxed), "frames": frames_total.load(Ordering::Relaxed)}));
+    // string lengths
+    let sweep = length_sweep_cases(quick);
+    par_for(sweep.len(), |i| {
+        let vs = length_sweep_one(sweep[i], false);
+        transitions.fetch_add(3, Ordering::Relaxed);
+        if !vs.is_empty() {
+            let mut g = vios.lock().unwrap();
+            for (rule, sig, what) in vs {
+                g.add(Violation { rule, signature: sig, what, replay: json!({"harness": "c10.len", "case": {"in_name": sweep[i].0, "symbol": sweep[i].1, "n": sweep[i].2}}) });
+            }
+        }
+    });
+    out.harness("string-length-sweep", json!({"cases": sweep.len(), "symbols": "values: a - z A ~ 0xff, names: a - z _", "max_repetitions": sweep.iter().map(|c| c.2).max()}));
     let t = transitions.load(Ordering::Relaxed);
     out.set("states", json!(states_total));
     out.set("transitions", json!(t + cases.load(Ordering::Relaxed)));
@@ -538,7 +590,7 @@ pub fn run(ctx: &Ctx) -> Outcome {
     out.set("distinct_nontrivial", json!(states_total));
     out.set("exhaustive", json!(closed));
     out.set("mechanism_counters", json!({"blocks_with_eviction": evictions.load(Ordering::Relaxed), "blocks_with_size_update": updates_emitted.load(Ordering::Relaxed)}));
-    out.set("rule", json!("X2: breadth-first search over the real hpack::Encoder (cloned per transition): events = every list of <= n items of the alphabet and update_max_size(v); a state is the canonical encoder table (Debug text, indices normalised by `inserted`) + reference decoder state + h2 decoder state; on every transition the emitted block is decoded by the RFC 7541 reference (strict size-update rules) and by h2's decoder and compared with the submitted fields. X3: every CONTINUATION split limit through Headers::encode / Continuation::encode. distinct_nontrivial = distinct canonical states"));
+    out.set("rule", json!("X2: breadth-first search over the real hpack::Encoder (cloned per transition): events = every list of <= n items of the alphabet and update_max_size(v); a state is the canonical encoder table (Debug text, indices normalised by `inserted`) + reference decoder state + h2 decoder state; on every transition the emitted block is decoded by the RFC 7541 reference (strict size-update rules) and by h2's decoder and compared with the submitted fields. X3: every CONTINUATION split limit through Headers::encode / Continuation::encode; every name / value length 0..600 (thorough: 9000) for symbols of each Huffman code-length class, encoded alone, before another field and again from the table. distinct_nontrivial = distinct canonical states"));
     out.add_sample(json!({"harness": "c10.bfs", "case": {"max_block": max_block, "small": false, "history": sample_hist}}));
     out.add_sample(json!({"harness": "c10.bfs", "case": {"max_block": small_block, "small": true, "history": b.sample_hist}}));
     out.add_sample(json!({"harness": "c10.frames", "case": {"list": "large", "pre_blocks": 1, "limit": 200}}));
@@ -569,6 +621,14 @@ pub fn replay(v: &Value) -> bool {
             }
             println!("encoder after: {}", canon_encoder(&s.enc));
             bad
+        }
+        "c10.len" => {
+            let c = &v["case"];
+            let vs = length_sweep_one((c["in_name"].as_bool().unwrap_or(false), c["symbol"].as_u64().unwrap_or(97) as u8, c["n"].as_u64().unwrap_or(0) as usize), true);
+            for (rule, sig, what) in &vs {
+                println!("RULE VIOLATED: {} [{}] {}", rule, sig, what);
+            }
+            !vs.is_empty()
         }
         _ => {
             let vios = Mutex::new(VioSet::default());
